@@ -111,6 +111,29 @@ class MT(SectionUnit):
         cursor(P, inp, old, 20, "MT")
 
 
+def text_ok(S, d, off, n):
+    """the n bytes decode: ASCII for a concrete length; UTF-8 validity (uninterpreted) for a symbolic one"""
+    if isinstance(n, int) or not S.symbolic:
+        return is_ascii(d, off, n)
+    from pyvc import ops as _ops2
+    from pyvc.values import ufun as _uf
+    b = _ops2.as_sbytes(view(d, off, n))
+    return _uf('utf8_valid', b.arr.sort(), z3.IntSort(), z3.IntSort(), z3.BoolSort())(b.arr, zint(b.off), zint(b.ln))
+
+
+def opaque_text(P, d, off, n, stripfn):
+    """the n bytes as text with NULs stripped (stripfn: 'strip_00' both ends, 'rstrip_00' trailing only)"""
+    if isinstance(n, int) or not P.symbolic:
+        return strip(ascii_text(d, off, n), "\0", 'r' if stripfn == 'rstrip_00' else 'b') if n else ""
+    if branch(Eq(n, 0)):
+        return ""
+    from pyvc import ops as _ops2
+    from pyvc.values import ufun as _uf, PyStr as _PS
+    b = _ops2.as_sbytes(view(d, off, n))
+    t = _uf('decode_utf8', b.arr.sort(), z3.IntSort(), z3.IntSort(), _PS)(b.arr, zint(b.off), zint(b.ln))
+    return mkstr([Opq(_uf(stripfn, _PS, _PS)(t))])
+
+
 class EH(SectionUnit):
     prop = "C02"
     name = "ExtendedUserHeader.toJSON"
@@ -125,7 +148,10 @@ class EH(SectionUnit):
 
     def inputs(self, S):
         inp = SectionUnit.inputs(self, S)
-        inp['_symlen'] = S.choice("symlen", self.SYM)
+        n = S.choice("symlen", self.SYM + ['any'])
+        if n == 'any':
+            n = S.int("symlen_any", 0, 255)      # any length the one-byte field can hold: the text is then an opaque function of the bytes
+        inp['_symlen'] = n
         return inp
 
     def ctor_args(self, inp):
@@ -135,7 +161,7 @@ class EH(SectionUnit):
         d, o = field(inp['stream'], 'data'), field(inp['stream'], 'index')
         n = inp['_symlen']
         return And(need(inp, 68 + n), self.creator_ascii(inp), is_ascii(d, o, 52), Eq(byte(d, o + 67), n),
-                   is_ascii(d, o + 68, n))
+                   text_ok(S, d, o + 68, n))
 
     def check(self, P, inp, old, out):
         P.prove(out.returned, "EH: decodes without error when the body is present and its text is ASCII")
@@ -151,7 +177,7 @@ class EH(SectionUnit):
             ("FW SubSys Version", strip(ascii_text(d, o + 36, 16), "\0")),
             ("Common Ref Time", spec_timestamp(d, o + 56)),
             ("Symptom Id Len", Num(byte(d, o + 67), 10)),
-            ("Symptom Id", strip(ascii_text(d, o + 68, n), "\0"))]
+            ("Symptom Id", opaque_text(P, d, o + 68, n, 'strip_00'))]
         check_dict(P, js, items, "EH")
         cursor(P, inp, old, 68 + n, "EH")
 
@@ -180,11 +206,27 @@ class LP(SectionUnit):
     def inputs(self, S):
         inp = SectionUnit.inputs(self, S)
         inp['_count'] = S.choice("count", self.counts)
-        inp['_nlen'] = S.choice("nlen", self.names)
+        nl = S.choice("nlen", self.names + ['any'])
+        if nl == 'any':
+            # any name length 0..255 (symbolic): the name is then an opaque function of exactly those bytes
+            nl = S.int("nlen_any", 0, 255) if S.symbolic else (S.int("nlen_any", 0, 255) if hasattr(S, 'values') or hasattr(S, 'rng') else 3)
+        inp['_nlen'] = nl
         return inp
 
     def ctor_args(self, inp):
         return SectionUnit.ctor_args(self, {k: v for k, v in inp.items() if not k.startswith('_')})
+
+    def spec_name(self, P, d, o, n):
+        """the n name bytes as text without trailing NULs"""
+        if isinstance(n, int) or not P.symbolic:
+            return strip(ascii_text(d, o + 8, n), "\0", 'r') if n else ""
+        if branch(Eq(n, 0)):
+            return ""
+        from pyvc import ops as _ops2
+        from pyvc.values import ufun as _uf, PyStr as _PS
+        b = _ops2.as_sbytes(view(d, o + 8, n))
+        t = _uf('decode_utf8', b.arr.sort(), z3.IntSort(), z3.IntSort(), _PS)(b.arr, zint(b.off), zint(b.ln))
+        return mkstr([Opq(_uf('rstrip_00', _PS, _PS)(t))])
 
     def size(self, inp):
         c, n = inp['_count'], inp['_nlen']
@@ -193,8 +235,14 @@ class LP(SectionUnit):
     def pre(self, S, inp):
         d, o = field(inp['stream'], 'data'), field(inp['stream'], 'index')
         c, n = inp['_count'], inp['_nlen']
-        return And(need(inp, self.size(inp)), self.creator_ascii(inp), Eq(byte(d, o + 2), n), Eq(byte(d, o + 3), c),
-                   is_ascii(d, o + 8, n))
+        if isinstance(n, int) or not S.symbolic:
+            text_ok = is_ascii(d, o + 8, n)
+        else:
+            from pyvc import ops as _ops2
+            from pyvc.values import ufun as _uf
+            b = _ops2.as_sbytes(view(d, o + 8, n))
+            text_ok = _uf('utf8_valid', b.arr.sort(), z3.IntSort(), z3.IntSort(), z3.BoolSort())(b.arr, zint(b.off), zint(b.ln))
+        return And(need(inp, self.size(inp)), self.creator_ascii(inp), Eq(byte(d, o + 2), n), Eq(byte(d, o + 3), c), text_ok)
 
     def check(self, P, inp, old, out):
         P.prove(out.returned, "LP: decodes without error when the body is present")
@@ -207,7 +255,7 @@ class LP(SectionUnit):
         items = common_items(inp) + [
             ("Primary Partition ID", Num(be(d, o, 2))), ("Length of LP Name", Num(byte(d, o + 2))),
             ("Target LP Count", Num(byte(d, o + 3))), ("Logical Partition Log ID", Num(be(d, o + 4, 4))),
-            ("Primary Partition Name", strip(ascii_text(d, o + 8, n), "\0", 'r') if n else "")]
+            ("Primary Partition Name", self.spec_name(P, d, o, n))]
         keys = list(js.keys()) if isinstance(js, dict) else []
         tkeys = [k for k in keys if k not in [i[0] for i in items]]
         base = {k: js[k] for k in keys if k not in tkeys} if isinstance(js, dict) else js
